@@ -120,7 +120,7 @@ def _filter_known(p):
             continue
         p['fresh_counts'][v['kind']] += 1
         per_kind[v['kind']] += 1
-        if per_kind[v['kind']] <= 40:
+        if per_kind[v['kind']] <= int(os.environ.get('VERIF_VIOL_CAP', 40)):
             fresh.append(v)
     p['violations'] = fresh
     return p
